@@ -71,6 +71,9 @@ def gen_cases(tier, seed):
         yield C(w="reuse", solver=["SGD", "Adam", "Adagrad", "LBFGSB"][i % 4], loss=["GAUSSIAN", "POISSON"][(i // 4) % 2],
                 shapes=[[int(s) for s in rng.integers(2, 5, size=int(rng.integers(2, 4)))] for _ in range(3)], same_size=bool(i % 2),
                 rate=float(rng.choice([1e-2, 0.5])), nsolves=int(rng.integers(2, 4)))
+    for i in range(8 if tier == "quick" else 40):
+        yield C(w="reuse", solver=["LBFGSB", "SGD", "Adam", "Adagrad"][i % 4], loss="GAUSSIAN", shapes=[[int(s) for s in rng.integers(2, 5, size=3)] for _ in range(2)],
+                same_size=bool(i % 2), rate=1e-2, nsolves=2, failed_first=True, maxiter=6)
     # solves of very different sizes on one L-BFGS-B object, run to convergence: any tolerance or workspace remembered from an earlier
     # (larger or smaller) problem changes where the later solve stops
     for i in range(6 if tier == "quick" else 40):
@@ -458,6 +461,21 @@ def _w_reuse(case, ctx, rng):
         return _mk_solver(case["solver"], rate=case["rate"], max_fails=1, epoch_iters=2, max_iters=3)
 
     shared = mk()
+    if case.get("failed_first"):
+        # an earlier solve on the same object that ended in an exception (a user-supplied loss raising part-way): the object must be as
+        # usable afterwards as a fresh one
+        calls_ = {"n": 0}
+
+        def fh_bad(x, m):
+            calls_["n"] += 1
+            if calls_["n"] >= 3:
+                raise RuntimeError("loss failed")
+            return fh(x, m)
+        X0, M00 = probs[0]
+        np.random.seed(case["gseed"])
+        r0 = ctx.call(case["solver"] + ".solve", shared.solve, M00.copy(), X0, fh_bad, gh, lb)
+        ctx.tag("first-solve-raised" if not r0.ok else "first-solve-survived")
+        ctx.feat(failed_first=True)
     for i, (X, M0) in enumerate(probs):
         np.random.seed(case["gseed"] + i)
         r1 = ctx.call(case["solver"] + ".solve", shared.solve, M0.copy(), X, fh, gh, lb)
